@@ -45,7 +45,7 @@ ASSUMPTIONS = [
     "closed-form anchor: tolerance 1e-8*(1+|v|), only when the coupled pair's residual in the snapshot is below 1e-10",
     "linear solvers, derivatives recording, discrete variables, MPI and solver scaling are not covered",
 ]
-BOUND = {'quick': '16 units x 30 cases', 'thorough': '32 units x 600 cases'}
+BOUND = {'quick': '4 units x 150 cases', 'thorough': '16 units x 1250 cases'}
 MIN_CLASS_FRACTION = {'judged': 0.9, 'multi-level': 0.3, 'nondefault-filter': 0.3, 'drv:doe': 0.1, 'drv:slsqp': 0.1, 'cycle': 0.2}
 UNIT_TIMEOUT = {'quick': 1500, 'thorough': 4 * 3600}
 
@@ -450,6 +450,12 @@ def _anchor(spec, info, rinfo, log, res):
         if e['source'] == 'problem':
             prev = [o['op'] for o in spec['ops'][:e['op']] if o['op'] != 'record']
             full = bool(prev) and prev[-1].startswith('run')
+        if full and spec['driver']['t'] == 'slsqp':
+            # an optimizer run only executes the systems relevant to the responses (relevance pruning): irrelevant components
+            # keep stale values by design, so the whole-model closed form is no anchor there
+            last_run = [o['op'] for o in spec['ops'][:e['op'] + 1] if o['op'].startswith('run')]
+            if last_run and last_run[-1] == 'run_driver':
+                full = False
         if not full:
             continue
         given = {}
@@ -486,8 +492,9 @@ def strategy(tier):
 
 
 def units(tier, seed):
-    n = 16 if tier == 'quick' else 32
-    per = 30 if tier == 'quick' else 600
+    # few, long units: on the shared machine a cold `import openmdao.api` costs far more CPU than the cases of a unit
+    n = 4 if tier == 'quick' else 16
+    per = 150 if tier == 'quick' else 1250
     return [{'kind': 'random', 'n': per, 'seed': core.shard_seed(seed, ID, i)} for i in range(n)]
 
 
